@@ -14,7 +14,11 @@ move-to-front transform of §7.3, NTREES prefix codes, block switches inside the
 Tied to the code by the `storefull`, `cmap`, `bsw`, `readg` lines of engine `metablock`
 (`/verif/harness/src/metablock.rs`).
 -/
-import BV.Lemmas.MetaBlockCmap
+import BV.Lemmas.MetaBlockFullAsm
+import BV.Lemmas.MetaBlockWmbiG
+import BV.Lemmas.MetaBlockAgree
+import BV.Lemmas.MetaBlockExpand
+import BV.Props.C01MetaBlock
 
 namespace BV.Props.C01MetaBlockFull
 open BV.Gen BV.Bits BV.Huffman BV.PrefixArith BV.Recoder BV.MetaBlock
@@ -56,5 +60,236 @@ theorem rle_zero_runs_roundtrip (v : List Nat) (hv : ∀ x ∈ v, x < 256) :
     ((runLengthCodeZeros v 6).1.flatMap (rleDec (runLengthCodeZeros v 6).2)) = v := by
   have hP : (runLengthCodeZeros v 6).2 ≤ 6 := by unfold runLengthCodeZeros; exact Nat.min_le_right _ _
   exact (rleLoop_spec _ hP (v.length + 1) v (by omega) hv).1
+
+/-- **block_switch_roundtrip** — `BuildAndStoreBlockSplitCode` + every `StoreBlockSwitch` of a category.
+For EVERY well-formed split (`SplitOK`: `num_blocks = types.len() = lengths.len() ≥ 1`, at most `2^24` blocks, first
+block of type 0, types `< num_types`, `1 ≤ num_types ≤ 256`, block lengths `1..2^24`, `num_types = 1` ⇒ one block),
+behind any written bits `w` and before any following bits `rest`:
+the writer (histograms of the type / length codes with the `BlockTypeCodeCalculator` rule, `StoreVarLenUint8`,
+the two `BuildAndStoreHuffmanTree` calls, the first block length, then one `StoreBlockSwitch` per later block in
+order) does not panic, and the RFC 7932 §6 / §9.2 reader — NBLTYPES, the block type code over NBLTYPES + 2
+symbols, the block count code, the first count; then per switch the type code with 0 = second-to-last type,
+1 = last type + 1 (wrapping at NBLTYPES), else code − 2, and the count code with its extra bits — reconstructs
+exactly the `(type, length)` sequence and stops behind the last switch.  With NBLTYPES = 1 nothing but the
+single NBLTYPES bit is written and there are no switches. -/
+theorem block_switch_roundtrip (s : BSplit) (h : SplitOK s) (w rest : List Bool) :
+    ∃ bits c, (buildAndStoreBlockSplitCode s BSCode.init w).bind (fun cw =>
+        ((s.types.zip s.lengths).drop 1).foldlM (fun (cw : BSCode × Writer) tl =>
+          storeBlockSwitch cw.1 tl.2 tl.1 false cw.2) cw) = .ok (c, w ++ bits) ∧
+      ∃ cat bs, readCatHeader (bits ++ rest) = some (cat, bs) ∧ cat.nbl = s.numTypes ∧
+        (2 ≤ s.numTypes → cat.count = s.lengths.getD 0 0) ∧
+        readSwitches (s.types.length - 1) cat bs [(0, s.lengths.getD 0 0)] = some (s.types.zip s.lengths, rest) := by
+  obtain ⟨b1, c1, cat, e1, r1, i1, hc⟩ := blockSplitCode_roundtrip s h w
+  obtain ⟨b2, c2, e2, r2⟩ := switches_roundtrip s h (s.types.length - 1) 0 c1 cat [(0, s.lengths.getD 0 0)] (w ++ b1) i1
+    (by have := h.pos; omega)
+  refine ⟨b1 ++ b2, c2, ?_, cat, b2 ++ rest, ?_, i1.nbl, hc, ?_⟩
+  · rw [e1]
+    show List.foldlM _ (c1, w ++ b1) _ = _
+    rw [e2, List.append_assoc]
+  · rw [List.append_assoc, r1]
+  · rw [r2]
+    have := zip_drop s h 0 h.pos
+    rw [List.drop_zero, h.t0] at this
+    rw [this]
+    rfl
+
+/-- non-vacuity: three block types, five blocks (codes 1, 0, "type + 2", 1 in this order) -/
+example : SplitOK ⟨3, 5, [0, 1, 0, 2, 0], [5, 1, 300, 70000, 2]⟩ ∧
+    ((buildAndStoreBlockSplitCode ⟨3, 5, [0, 1, 0, 2, 0], [5, 1, 300, 70000, 2]⟩ BSCode.init []).bind (fun cw =>
+      ([(1, 1), (0, 300), (2, 70000), (0, 2)] : List (Nat × Nat)).foldlM (fun (cw : BSCode × Writer) tl =>
+        storeBlockSwitch cw.1 tl.2 tl.1 false cw.2) cw)).bind (fun cw => Out.ok
+      ((readCatHeader cw.2).bind fun (cat, bs) => readSwitches 4 cat bs [(0, cat.count)]))
+      = .ok (some ([(0, 5), (1, 1), (0, 300), (2, 70000), (0, 2)], [])) := by
+  refine ⟨⟨rfl, rfl, by decide, by decide, rfl, by decide, by decide, by decide, by decide, by decide⟩,
+    by decide +kernel⟩
+
+/-! ### the whole meta-block -/
+
+/-- **full_metablock_roundtrip** — `BrotliStoreMetaBlock` (`store_meta_block`, quality ≥ 4).
+For EVERY ring buffer / mask / start position holding the meta-block bytes `mb` (`1 ≤ |mb| ≤ 2^24`; `hIP` as in
+`trivial_metablock_roundtrip`), every history `hist` with `prev_byte` / `prev_byte2` its last two bytes (0 when
+missing), every literal context mode 0..3, every NPOSTFIX ≤ 3 / NDIRECT = `ndm << NPOSTFIX`, `ndm < 16` with a
+distance alphabet of at most 544 symbols (`BROTLI_NUM_HISTOGRAM_DISTANCE_SYMBOLS`; all standard-window parameter
+sets, the large-window ones up to NPOSTFIX 2), every command array satisfying `cmdOK`, `lockstep`, `faithful` and
+`copy_len() ≥ 2` for copying commands, and EVERY well-formed `MetaBlockSplit` (`MBOK`: three `SplitOK` block splits
+with up to 256 types and 2^24 blocks, context maps either absent — then one histogram per block type — or of
+`64·types` / `4·types` entries `<` the number of histograms `≤ 256`, histograms of the right lengths with totals
+`≤ 2^25`, distance histograms empty above the alphabet) whose histograms cover the symbols emitted under them
+(`Covers`: for the k-th literal / command / distance symbol, of block type `t_k` by the split and context `c_k`, the
+histogram selected by the context map for `(t_k, c_k)` counts the symbol; `remTypes` is the per-symbol block type
+sequence and must be at least as long as the symbol sequence):
+* the model of the writer does NOT PANIC (block-split code histograms and trees, `StoreTrivialContextMap` /
+  `EncodeContextMap`, `build_and_store_entropy_codes` into the shared depth / bit tables, every block switch,
+  every context lookup, every `BrotliWriteBits`) and appends some `bits` to `w`;
+* the GENERAL RFC 7932 reader (`readMetaBlockFullG`: NBLTYPES ×3 with type / count codes, NPOSTFIX, NDIRECT, context
+  modes, two context maps with RLEMAX and inverse move-to-front, NTREES prefix codes per category, block switches
+  and §7.1 / §7.2 context ids inside the command loop), started at bit position `|w|` with decoder state
+  `(hist, dc)`, accepts `bits ++ rest`, stops exactly behind `bits` (behind the zero padding when `is_last`),
+  reports ISLAST as written and the position `|w ++ bits|`;
+* its output is what C14's RFC decoder `replayCommands` produces from the raw commands — with `faithful`
+  this is `hist ++ mb`.
+`faithful` (after every command the decoder's output is `hist ++` a prefix of `mb`) is NECESSARY here and was not
+for the context-free writers: the writer takes the two context bytes of a literal from its input, the reader from
+its output. -/
+theorem full_metablock_roundtrip (wo : WordOracle) (window : Nat) (ring : Bytes) (start mask prevByte prevByte2 : Nat)
+    (mb : Bytes) (isLast : Bool) (dp : DistP) (mode : Nat) (cmds : List Cmd) (mbs : MBSplit) (hist : Bytes)
+    (dc : List Int) (w : List Bool)
+    (hR : RingHolds ring mask start mb) (h256 : ∀ b ∈ mb, b < 256) (hh256 : ∀ b ∈ hist, b < 256)
+    (h1 : 1 ≤ mb.length) (h2 : mb.length ≤ 2 ^ 24) (h64 : start + mb.length < 2 ^ 64)
+    (hIP : inputPairCheck ring start mb.length mask = .ok ())
+    (hprev : prevByte = lastB hist ∧ prevByte2 = last2B hist) (hmode : mode < 4)
+    (hnp : dp.npostfix ≤ 3) (hnd1 : dp.ndirect % 2 ^ dp.npostfix = 0) (hnd2 : dp.ndirect / 2 ^ dp.npostfix < 16)
+    (hA : dp.alphabetSize = distAlphabetSize dp.large dp.npostfix dp.ndirect) (hA544 : dp.alphabetSize ≤ 544)
+    (hok : ∀ c ∈ cmds, cmdOK dp.alphabetSize dp.npostfix dp.ndirect c = true)
+    (hcl2 : ∀ c ∈ cmds, copyLen c ≠ 0 → 2 ≤ copyLen c)
+    (hlock : lockstep wo dp.npostfix dp.ndirect window mb ⟨hist, dc, 0⟩ 0 cmds = true)
+    (hfa : faithful wo dp.npostfix dp.ndirect window mb hist ⟨hist, dc, 0⟩ cmds)
+    (hM : MBOK mbs dp.alphabetSize)
+    (hcL : Covers mbs.litHistos (effMap mbs.litCmap mbs.litCmapSize mbs.lit.numTypes 64) 64
+      (remTypes mbs.lit 0 (mbs.lit.lengths.getD 0 0)) (litSymsOf mode hist mb 0 cmds))
+    (hcI : Covers mbs.cmdHistos (trivialMap mbs.cmd.numTypes 1) 1
+      (remTypes mbs.cmd 0 (mbs.cmd.lengths.getD 0 0)) (cmds.map fun c => (0, c.cmdPrefix)))
+    (hcD : Covers mbs.distHistos (effMap mbs.distCmap mbs.distCmapSize mbs.dist.numTypes 4) 4
+      (remTypes mbs.dist 0 (mbs.dist.lengths.getD 0 0)) (distSymsOf cmds)) :
+    ∃ bits out ring',
+      storeMetaBlockFull ring start mb.length mask prevByte prevByte2 isLast dp mode cmds mbs w = .ok (w ++ bits) ∧
+      replayCommands wo dp.npostfix dp.ndirect window mb dc hist cmds = some out ∧
+      (∀ rest, readMetaBlockFullG wo window dp.large w.length ⟨hist, dc⟩ (bits ++ rest)
+        = some (⟨out, ring'⟩, isLast, (w ++ bits).length, rest)) ∧
+      (replayCommands wo dp.npostfix dp.ndirect window mb dc hist cmds = some (hist ++ mb) → out = hist ++ mb) := by
+  obtain ⟨bits, fin, e, hdec, _, hrd⟩ := full_core wo window ring start mask prevByte prevByte2 mb isLast dp mode cmds mbs
+    hist dc w hR h256 hh256 h1 h2 (by unfold two64; simpa using h64) hIP hprev hmode hnp hnd1 hnd2 hA hA544 hok hcl2 hlock
+    hfa hM hcL hcI hcD
+  refine ⟨bits, fin.out, fin.ring, e, ?_, hrd, ?_⟩
+  · unfold replayCommands; rw [hdec]; rfl
+  · intro hp
+    unfold replayCommands at hp
+    rw [hdec] at hp
+    simpa using hp
+
+open BV.Stored (writeMetaBlockInternal MbOracle) in
+/-- **wmbi_full_roundtrip** — `WriteMetaBlockInternal` at quality ≥ 4 (model of its size decision:
+`BV.Stored.writeMetaBlockInternal`, C08 `guard_holds`; compressed attempt = `BrotliStoreMetaBlock`).  Same hypotheses
+as `full_metablock_roundtrip` plus the payload hypothesis of C14.  For EVERY verdict of `should_compress`, appendable /
+catable / last or not: the attempt is written without panic, the call returns, and what it leaves in the storage —
+the compressed meta-block, or the stored one when the attempt was not tried or is more than `len + 4` bytes long,
+plus the separate empty last meta-block of appendable streams — is read by the general RFC reader from the decoder
+state `(hist, dc)` to a state whose output is `hist ++ mb`. -/
+theorem wmbi_full_roundtrip (wo : WordOracle) (window : Nat) (ring : Bytes) (start mask prevByte prevByte2 : Nat)
+    (mb : Bytes) (appendable catable actualIsLast shouldCompress : Bool) (dp : DistP) (mode : Nat) (cmds : List Cmd)
+    (mbs : MBSplit) (hist : Bytes) (dc : List Int) (w : List Bool)
+    (hR : RingHolds ring mask start mb) (h256 : ∀ b ∈ mb, b < 256) (hh256 : ∀ b ∈ hist, b < 256)
+    (h1 : 1 ≤ mb.length) (h2 : mb.length ≤ 2 ^ 24) (h64 : start + mb.length < 2 ^ 64)
+    (hIP : inputPairCheck ring start mb.length mask = .ok ())
+    (hprev : prevByte = lastB hist ∧ prevByte2 = last2B hist) (hmode : mode < 4)
+    (hnp : dp.npostfix ≤ 3) (hnd1 : dp.ndirect % 2 ^ dp.npostfix = 0) (hnd2 : dp.ndirect / 2 ^ dp.npostfix < 16)
+    (hA : dp.alphabetSize = distAlphabetSize dp.large dp.npostfix dp.ndirect) (hA544 : dp.alphabetSize ≤ 544)
+    (hok : ∀ c ∈ cmds, cmdOK dp.alphabetSize dp.npostfix dp.ndirect c = true)
+    (hcl2 : ∀ c ∈ cmds, copyLen c ≠ 0 → 2 ≤ copyLen c)
+    (hlock : lockstep wo dp.npostfix dp.ndirect window mb ⟨hist, dc, 0⟩ 0 cmds = true)
+    (hfa : faithful wo dp.npostfix dp.ndirect window mb hist ⟨hist, dc, 0⟩ cmds)
+    (hpay : replayCommands wo dp.npostfix dp.ndirect window mb dc hist cmds = some (hist ++ mb))
+    (hM : MBOK mbs dp.alphabetSize)
+    (hcL : Covers mbs.litHistos (effMap mbs.litCmap mbs.litCmapSize mbs.lit.numTypes 64) 64
+      (remTypes mbs.lit 0 (mbs.lit.lengths.getD 0 0)) (litSymsOf mode hist mb 0 cmds))
+    (hcI : Covers mbs.cmdHistos (trivialMap mbs.cmd.numTypes 1) 1
+      (remTypes mbs.cmd 0 (mbs.cmd.lengths.getD 0 0)) (cmds.map fun c => (0, c.cmdPrefix)))
+    (hcD : Covers mbs.distHistos (effMap mbs.distCmap mbs.distCmapSize mbs.dist.numTypes 4) 4
+      (remTypes mbs.dist 0 (mbs.dist.lengths.getD 0 0)) (distSymsOf cmds))
+    (hcat : catable = true → appendable = true) (hw : w.length < 256) :
+    ∃ att r bits s'',
+      storeMetaBlockFull ring start mb.length mask prevByte prevByte2 (if appendable then false else actualIsLast)
+        dp mode cmds mbs w = .ok (w ++ att) ∧
+      writeMetaBlockInternal appendable catable actualIsLast mb ⟨shouldCompress, att⟩ w = .ok r ∧
+      r.fin = w ++ bits ∧ s''.out = hist ++ mb ∧
+      (actualIsLast = true → ∀ rest f,
+        readMetaBlocksG wo window dp.large (f + 2) w.length ⟨hist, dc⟩ (bits ++ rest) = some (s'', rest)) ∧
+      (actualIsLast = false →
+        ReadsToG wo window dp.large w.length ⟨hist, dc⟩ bits false (w.length + bits.length) s'') := by
+  obtain ⟨att, out, ring', e, _, hrd, hout⟩ := full_metablock_roundtrip wo window ring start mask prevByte prevByte2 mb
+    (if appendable then false else actualIsLast) dp mode cmds mbs hist dc w hR h256 hh256 h1 h2 h64 hIP hprev hmode hnp
+    hnd1 hnd2 hA hA544 hok hcl2 hlock hfa hM hcL hcI hcD
+  have ho := hout hpay
+  obtain ⟨r, bits, s'', a1, a2, a3, a4, a5⟩ := wmbi_readsG wo window dp.large appendable catable actualIsLast mb
+    ⟨shouldCompress, att⟩ w ⟨hist, dc⟩ ⟨out, ring'⟩ hcat h1 h2 hw h256 ho
+    (fun _ => by intro rest; rw [hrd rest, List.length_append])
+  exact ⟨att, r, bits, s'', e, a1, a2, a3, a4, a5⟩
+
+/-! ### the general reader extends the single-type reader -/
+
+/-- **general_reader_extends** — whatever the single-type reader of `BV/Model/MetaBlock.lean` (NBLTYPES = 1 per
+category, NTREES = 1; the reader of `trivial_metablock_roundtrip` / `fast_metablock_roundtrip` / C01's stream
+theorems) accepts, the general reader reads to the SAME result: one meta-block, the meta-block loop, a whole stream.
+(With one block type `Cat.next` never switches; an all-zero context map sends every context id — all are `< 64`,
+resp. `< 4` — to tree 0.)  So every round-trip theorem stated with the single-type reader holds verbatim for the
+general reader. -/
+theorem general_reader_extends (wo : WordOracle) (window : Nat) (large : Bool) :
+    (∀ pos s bs x, readMetaBlockFull wo window large pos s bs = some x →
+      readMetaBlockFullG wo window large pos s bs = some x) ∧
+    (∀ f pos s bs x, readMetaBlocks wo window large f pos s bs = some x →
+      readMetaBlocksG wo window large f pos s bs = some x) ∧
+    (∀ bs out, readStream wo bs = some out → readStreamG wo bs = some out) := by
+  refine ⟨readMetaBlockFullG_extends wo window large, readMetaBlocksG_extends wo window large, ?_⟩
+  intro bs out h
+  unfold readStream at h
+  unfold readStreamG
+  cases hw : HeaderSpec.readWbits bs with
+  | none => rw [hw] at h; cases h
+  | some p =>
+    obtain ⟨lgwin, lg, r⟩ := p
+    rw [hw] at h
+    simp only at h ⊢
+    cases hm : readMetaBlocks wo (2 ^ lgwin - 16) lg (bs.length + 1) (bs.length - r.length) ⟨[], [4, 11, 15, 16]⟩ r with
+    | none => rw [hm] at h; cases h
+    | some q =>
+      rw [hm] at h
+      rw [readMetaBlocksG_extends wo _ lg _ _ _ _ q hm]
+      exact h
+
+/-- `trivial_metablock_roundtrip` and `fast_metablock_roundtrip`, read by the general reader -/
+theorem trivial_fast_roundtrip_general (wo : WordOracle) (window : Nat) (large : Bool) (ring : Bytes)
+    (start mask : Nat) (mb : Bytes) (isLast : Bool) (cmds : List Cmd) (hist : Bytes) (dc : List Int)
+    (w : List Bool)
+    (hR : RingHolds ring mask start mb) (h256 : ∀ b ∈ mb, b < 256)
+    (h1 : 1 ≤ mb.length) (h2 : mb.length ≤ 2 ^ 24) (hst : start < 2 ^ 64)
+    (hIP : inputPairCheck ring start mb.length mask = .ok ())
+    (hok : ∀ c ∈ cmds, cmdOK (distAlphabetSize large 0 0) 0 0 c = true)
+    (hlock : lockstep wo 0 0 window mb ⟨hist, dc, 0⟩ 0 cmds = true) :
+    (∃ bits out ring',
+      storeMetaBlockTrivial ring start mb.length mask isLast (distAlphabetSize large 0 0) cmds w = .ok (w ++ bits) ∧
+      replayCommands wo 0 0 window mb dc hist cmds = some out ∧
+      ∀ rest, readMetaBlockFullG wo window large w.length ⟨hist, dc⟩ (bits ++ rest)
+        = some (⟨out, ring'⟩, isLast, (w ++ bits).length, rest)) ∧
+    (∃ bits out ring',
+      storeMetaBlockFast ring start mb.length mask isLast (distAlphabetSize large 0 0) cmds w = .ok (w ++ bits) ∧
+      replayCommands wo 0 0 window mb dc hist cmds = some out ∧
+      ∀ rest, readMetaBlockFullG wo window large w.length ⟨hist, dc⟩ (bits ++ rest)
+        = some (⟨out, ring'⟩, isLast, (w ++ bits).length, rest)) := by
+  obtain ⟨b1, o1, r1, e1, p1, q1, _⟩ := BV.Props.C01MetaBlock.trivial_metablock_roundtrip wo window large ring start mask
+    mb isLast cmds hist dc w hR h256 h1 h2 hst hIP hok hlock
+  obtain ⟨b2, o2, r2, e2, p2, q2, _⟩ := BV.Props.C01MetaBlock.fast_metablock_roundtrip wo window large ring start mask
+    mb isLast cmds hist dc w hR h256 h1 h2 hst hIP hok hlock
+  exact ⟨⟨b1, o1, r1, e1, p1, fun rest => readMetaBlockFullG_extends _ _ _ _ _ _ _ (q1 rest)⟩,
+    ⟨b2, o2, r2, e2, p2, fun rest => readMetaBlockFullG_extends _ _ _ _ _ _ _ (q2 rest)⟩⟩
+
+/-! ### the context-map expansion of `BrotliBuildMetaBlock` -/
+
+/-- **contextmap_expansion_correct** — the loop of `BrotliBuildMetaBlock` under
+`disable_literal_context_modeling != 0` that expands the clustering result (one cluster id per literal block type,
+stored in `map[0 .. num_types)`) to 64 contexts per type, in place, block types in DESCENDING order:
+for every map of at least `64 · num_types` entries, `num_types ≤ 256`, it does not panic, entry `64·t + j`
+(`j < 64`) of the result is the cluster id of type `t`, and the entries behind `64 · num_types` are untouched.
+(Seed `C01-q10-contextmap-expand-ascending`: in ascending order type 0 overwrites `map[1 .. 64)` before the other
+cluster ids are read — the second example.) -/
+theorem contextmap_expansion_correct (n : Nat) (m : List Nat) (hn : n ≤ 256) (hl : 64 * n ≤ m.length) :
+    ∃ m', expandContextMap n m = .ok m' ∧ m'.length = m.length ∧
+      (∀ t j, t < n → j < 64 → m'.getD (64 * t + j) 0 = m.getD t 0) ∧ ∀ k, 64 * n ≤ k → m'.getD k 0 = m.getD k 0 :=
+  expandContextMap_spec n m hn hl
+
+example : (expandContextMap 2 ([5, 7] ++ List.replicate 126 0)).bind
+      (fun m => .ok (m.getD 0 0, m.getD 63 0, m.getD 64 0, m.getD 127 0)) = .ok (5, 5, 7, 7) ∧
+    (expandContextMapAsc 2 0 ([5, 7] ++ List.replicate 126 0)).bind
+      (fun m => .ok (m.getD 0 0, m.getD 63 0, m.getD 64 0, m.getD 127 0)) = .ok (5, 5, 5, 5) := by
+  refine ⟨by decide +kernel, by decide +kernel⟩
 
 end BV.Props.C01MetaBlockFull
